@@ -83,6 +83,8 @@ def run_harness(args, timeout=3600, stdout_path=None, ok_codes=(0,)):
         if stdout_path:
             out.close()
     LAST_HARNESS_RC[0] = r.returncode
+    if r.returncode == 42 and 42 not in ok_codes:
+        raise ToolError("a library call did not return within the harness watchdog's limit (no verdict): %s" % " ".join(args[:4]))
     if r.returncode not in ok_codes:
         raise ToolError("harness exited with %d: %s" % (r.returncode, " ".join(args[:4])))
     return (r.stdout if not stdout_path else ""), time.time() - t0
